@@ -507,6 +507,10 @@ func panicClass(msg string) string {
 		return "index"
 	case strings.Contains(msg, "interface conversion"):
 		return "type-assertion"
+	case strings.Contains(msg, "reflect") && strings.Contains(msg, "not assignable"):
+		return "reflect-not-assignable"
+	case strings.Contains(msg, "reflect") && strings.Contains(msg, "zero Value"):
+		return "reflect-zero-value"
 	case strings.Contains(msg, "reflect"):
 		return "reflect"
 	case strings.Contains(msg, "nil map"):
